@@ -797,6 +797,11 @@ func c12InvalidRequests() []map[string]interface{} {
 			if _, err := child.Get("q"); err == nil {
 				bad("an external lookup answering with " + inv.name + " makes an unbound name defined")
 			}
+			cell := int64(7)
+			root.DefineValue("cell", reflect.ValueOf(&cell).Elem())
+			if p, err := child.Addr("cell"); err != nil || p.Kind() != reflect.Ptr || p.Elem().Int() != 7 {
+				bad("behind an external lookup answering with " + inv.name + " Addr does not reach the parent's addressable binding: " + fmt.Sprint(err))
+			}
 		})
 	}
 	// a binding whose value reflect only lets one look at (taken from an unexported struct field): copying the scope neither
